@@ -140,5 +140,54 @@ impl OverlappingState {
     ensures ov_post(aut, input, *old(state), *final(state), res),
 //@@ end
 
+// ---- the overlapping iterator (C03: the listing is what repeated stepping yields; C13: anchored
+// overlapping iteration and non-standard kinds are rejected at construction, never later) ------
+//@@ item src/automaton.rs | pub struct FindOverlappingIter<'a, 'h, A>
+//@@ sigsub 1 /pub struct/ => struct
+//@@ end
+
+impl<'a, 'h, A: AutomatonS> FindOverlappingIter<'a, 'h, A> {
+    spec fn inv(&self) -> bool {
+        &&& aut_wf(self.aut) && self.input.wf()
+        &&& self.aut.kind_s() is Standard
+        &&& self.input.anchored is No
+        &&& self.aut.start_s(Anchored::No) is Some
+        &&& ov_state_inv(self.aut, &self.input, self.state)
+    }
+    // everything the iterator has still to yield
+    spec fn remaining(&self) -> Seq<Match> {
+        if self.input.span.start > self.input.span.end { Seq::empty() } else { ov_remaining(self.aut, &self.input, self.state) }
+    }
+
+// `Iterator::next` of FindOverlappingIter (method body from /repo)
+//@@ fn src/automaton.rs | fn next(&mut self) -> Option<Match> | within=impl<'a, 'h, A: Automaton> Iterator for FindOverlappingIter<'a, 'h, A> | res=r
+//@@ header
+        requires old(self).inv(),
+        ensures
+            final(self).inv(), final(self).aut == old(self).aut, final(self).input == old(self).input,
+            // C03: the next element of the listing, or the end of it (and then nothing for ever)
+            r is Some ==> old(self).remaining() == seq![r->Some_0] + final(self).remaining(),
+            r is None ==> old(self).remaining().len() == 0 && final(self).remaining().len() == 0,
+//@@ end
+}
+
+// R-self: the provided trait method `Automaton::try_find_overlapping_iter` as a free function
+//@@ fn src/automaton.rs | fn try_find_overlapping_iter<'a, 'h>(
+//@@ sigsub 1 /fn try_find_overlapping_iter<'a, 'h>\(\s*&'a self,/ => fn try_find_overlapping_iter<'a, 'h, A: AutomatonS>(aut: &'a A,
+//@@ sigsub 1 /FindOverlappingIter<'a, 'h, Self>/ => FindOverlappingIter<'a, 'h, A>
+//@@ sigsub 1 /where\s+Self: Sized,/ =>
+//@@ sub 4 /\bself\b/ => aut
+//@@ header
+    requires aut_wf(aut), input.wf(),
+    ensures
+        // C13 (b), (c): rejected iff the kind is not standard, the input is anchored, or the
+        // unanchored mode has no start state
+        (res is Ok) == (aut.kind_s() is Standard && input.anchored is No && aut.start_s(Anchored::No) is Some),
+        res is Ok ==> res->Ok_0.inv() && res->Ok_0.aut == aut && res->Ok_0.input == input
+            // C03: a fresh iterator has the whole listing ahead of it
+            && (input.span.start <= input.span.end ==> res->Ok_0.remaining()
+                    == ov_list(aut, Anchored::No, input.haystack@, input.span.start as int, input.span.end as int)),
+//@@ end
+
 } // verus!
 fn main() {}
